@@ -116,7 +116,7 @@ def run_impl(cases, procs=16, chunk=8, fn=run_model_case):
 
 
 def conformance(ck, items, check_value=True, check_pos=True, timeout=3000, classify=None, sample_every=500, impl_fn=run_model_case,
-                nontrivial=lambda so: so['k'] == 'ok'):
+                nontrivial=lambda so: so['k'] == 'ok', also_generated=False):
     """items: dicts {g, texts, start?, cfg (spec cfg kwargs)?, settings (parse kwargs)?, label?, directives?, case (extra case fields)?}.
     Evaluates PegSem on every (item, text), runs the real parser, compares.  classify(item, text, so, ir, why) may return a
     known-finding id (the mismatch is then reported as KNOWN-FINDING if that id is listed) or None (-> VIOLATION).
@@ -130,7 +130,10 @@ def conformance(ck, items, check_value=True, check_pos=True, timeout=3000, class
         cases.append(default_case(ebnf, ts, start=it.get('start', 's'), settings=it.get('settings'), **(it.get('case') or {})))
     r, spec = run_oracle(jobs, timeout=timeout)
     ck.add_tlc(r, 'PegSemBatch')
-    impl = run_impl(cases, fn=impl_fn)
+    if also_generated:
+        from .impl import run_both_case
+        impl_fn = run_both_case
+    impl = run_impl(cases, fn=impl_fn, chunk=4 if also_generated else 8)
     mism = []
     seen = set()
     n = 0
@@ -139,7 +142,20 @@ def conformance(ck, items, check_value=True, check_pos=True, timeout=3000, class
             ck.violation({'kind': 'parse', 'inputs': {'grammar': c['ebnf']}, 'expected': 'grammar compiles',
                           'observed': im['compile'], 'spec': 'PegGrammar'}, key='compile' + c['ebnf'])
             continue
-        for t, (s, ir) in enumerate(zip(spec[j], im['res'])):
+        backends = [('model', im['res'])]
+        if also_generated:
+            if im['gen']['compile']['k'] != 'ok':
+                ck.violation({'kind': 'parse', 'inputs': {'grammar': c['ebnf']}, 'expected': 'generated source is valid Python and loads',
+                              'observed': im['gen']['compile']}, key='gencompile' + c['ebnf'])
+            else:
+                backends.append(('generated', im['gen']['res']))
+                for m in im['gen'].get('reuse_mismatch') or []:
+                    ck.violation({'kind': 'history', 'inputs': {'grammar': c['ebnf'], **{k2: v for k2, v in m.items() if k2 in ('text', 'settings')}},
+                                  'expected': m.get('fresh_object'), 'observed': m.get('reused_object'),
+                                  'why': 'a generated parser object used before behaves differently from a fresh one'},
+                                 key='reuse' + c['ebnf'])
+        for backend, results in backends:
+          for t, (s, ir) in enumerate(zip(spec[j], results)):
             so = spec_outcome(s)
             n += 1
             ck.count(evaluations=1, traces=1)
@@ -156,8 +172,8 @@ def conformance(ck, items, check_value=True, check_pos=True, timeout=3000, class
             if kf and ck.known(kf, f"{c['ebnf'].strip()} on {c['texts'][t]!r}: {why}"):
                 continue
             ck.violation({'kind': 'parse', 'inputs': {'grammar': c['ebnf'], 'text': c['texts'][t], 'start': c['start'],
-                                                      'settings': c['settings'], 'label': it.get('label')},
+                                                      'settings': c['settings'], 'label': it.get('label'), 'backend': backend},
                           'expected': so, 'observed': ir, 'why': why, 'spec': 'PegSem!Parse'},
-                         key=c['ebnf'] + why.split(':')[0])
+                         key=c['ebnf'] + why.split(':')[0] + backend)
     ck.cov['distinct_nontrivial'] += len(seen)
     return mism
